@@ -7,6 +7,7 @@
    with an address of the supported shape at [s,e), its '@' at a.  All theorems are for every text,
    of any length. *)
 From SV Require Import Model.Common Model.Redact Spec.RedactSpec Proofs.RedactProofs.
+From SV Require Import Model.RedactBounded Proofs.RedactBoundedProofs.
 From SV Require Model.GoSem Gen.C14Gen Proofs.C14GenEquiv.
 Local Open Scope nat_scope.
 
@@ -122,6 +123,60 @@ Proof.
         (conj ex_digit_ends_email ex_digit_ends_result)))).
 Qed.
 Print Assumptions C14_example.
+
+(* ---- No bound on the local part (follow-up: wave-4 miss seeded/C14/8).  [C14_complete] above is for texts and
+   addresses of any length; the statements below make the dependence on the UNBOUNDED backward scan visible.
+   [redact_email_v fs] (Model/RedactBounded.v) is the redaction loop over a parametric start scan [fs];
+   [find_start_capped cap] the scan that gives up after [cap] address characters (the seeded change, cap = 64);
+   [long_local n] = n+1 letters 'a' followed by "@b.c" (the harness family long-local-sweep). ---- *)
+
+(* the parametric loop instantiated with the model's scan is the model, on every text *)
+Theorem C14_parametric_scan_is_model :
+  forall t : bytes, redact_email_v find_start t = redact_email t.
+Proof. exact redact_email_v_faithful. Qed.
+Print Assumptions C14_parametric_scan_is_model.
+
+(* a local part of ANY length makes an address of the specification ... *)
+Theorem C14_long_local_is_address :
+  forall n : nat, email_at (long_local n) 0 (S n) (n + 5).
+Proof. exact long_local_email_at. Qed.
+Print Assumptions C14_long_local_is_address.
+
+(* ... and the model redacts all of it, whatever the length *)
+Theorem C14_long_local_redacted :
+  forall n : nat, exists out spans,
+    redact_email (long_local n) = Ok (out, spans) /\ forall i, i < n + 5 -> covered spans i.
+Proof. exact long_local_covered. Qed.
+Print Assumptions C14_long_local_redacted.
+
+(* the model's scan walks back over a local part of any length; the capped scan does the same up to the cap and
+   rejects the candidate ("not email") for EVERY longer local part - for all caps and lengths *)
+Theorem C14_scan_unbounded_vs_capped :
+  forall (cap n : nat) (rest : bytes),
+    find_start (repeat 97%N n ++ 64%N :: rest) n 0 = Ok (Some 0) /\
+    (n <= cap -> find_start_capped cap (repeat 97%N n ++ 64%N :: rest) n 0 = Ok (Some 0)) /\
+    (cap < n -> find_start_capped cap (repeat 97%N n ++ 64%N :: rest) n 0 = Ok None).
+Proof.
+  exact (fun cap n rest => conj (find_start_any_length n rest)
+          (conj (find_start_capped_within cap n rest) (find_start_capped_gives_up cap n rest))).
+Qed.
+Print Assumptions C14_scan_unbounded_vs_capped.
+
+(* The seeded variant violates completeness: with the scan capped at 64 the address of 65 letters + "@b.c"
+   (an address: C14_long_local_is_address) comes back unchanged, no span, its first byte uncovered.
+   Witness by computation; 64 letters are still redacted by the variant, 65 by the model. *)
+Theorem C14_bounded_scan_variant_refuted :
+  exists t s a e, email_at t s a e /\
+    exists out spans, redact_email_v (find_start_capped 64) t = Ok (out, spans) /\ out = t /\ ~ covered spans s.
+Proof. exact bounded_scan_variant_refuted. Qed.
+Print Assumptions C14_bounded_scan_variant_refuted.
+
+Theorem C14_bounded_scan_variant_example :
+  redact_email_v (find_start_capped 64) (long_local 64) = Ok (long_local 64, []) /\
+  redact_email (long_local 64) = Ok (marker, [(0, 69)]) /\
+  redact_email_v (find_start_capped 64) (long_local 63) = Ok (marker, [(0, 68)]).
+Proof. exact bounded_scan_variant_witness. Qed.
+Print Assumptions C14_bounded_scan_variant_example.
 
 (* ---- The tie to the SOURCE: Gen/C14Gen.v is regenerated by tools/go2coq from
    transform/tredactemail/redactemail.go on every check (all seven functions and the two lookup tables that
